@@ -1133,7 +1133,22 @@ pub fn exec_step(w: &mut World, s: &mut Session, step: &Step) -> Result<(), Viol
         Op::Status => {
             let r = lib!(s.fs.read_status_flags());
             match r {
-                Ok(fl) => w.observe(&format!("status:{}:{}", fl.dirty(), fl.io_error())),
+                Ok(fl) => {
+                    w.observe(&format!("status:{}:{}", fl.dirty(), fl.io_error()));
+                    // independent reading: boot-sector status byte as found at mount, or-ed with the flags other drivers
+                    // keep in FAT[1] (FAT16 bits 15/14, FAT32 bits 27/26; a cleared bit raises the flag)
+                    let g = &w.geo;
+                    let e1 = refdec::fat_raw(&w.disk.borrow().store, g, g.active_fat(), 1);
+                    let (fd, fe) = match g.fat_bits {
+                        16 => (e1 & 0x8000 == 0, e1 & 0x4000 == 0),
+                        32 => (e1 & 0x0800_0000 == 0, e1 & 0x0400_0000 == 0),
+                        _ => (false, false),
+                    };
+                    let want = (w.mount_status & 1 != 0 || fd, w.mount_status & 2 != 0 || fe);
+                    if (o.dirty_bit || o.outcome || o.read_only) && !w.faulted && (fl.dirty(), fl.io_error()) != want {
+                        return Err(viol(&prop, "status-flags-differ", format!("read_status_flags() = (dirty {}, io_error {}), raw image says {:?} (status byte at mount {:#04x}, FAT[1] {:#x})", fl.dirty(), fl.io_error(), want, w.mount_status, e1), step_no));
+                    }
+                }
                 Err(e) => out.res = Err(map_err(&e)),
             }
         }
@@ -1151,8 +1166,20 @@ pub fn exec_step(w: &mut World, s: &mut Session, step: &Step) -> Result<(), Viol
                     if o.outcome && l != want {
                         return Err(viol(&prop, "label-differs", format!("library {:?}, raw image {:?}", l, want), step_no));
                     }
-                    let _ = lib!(s.fs.volume_label_as_bytes().len());
-                    let _ = lib!(s.fs.volume_id());
+                    // BPB label / id against the raw boot sector (only meaningful with the extended boot signature)
+                    let (sig_off, id_off, lab_off) = if w.geo.ext_layout { (66u64, 67u64, 71u64) } else { (38, 39, 43) };
+                    let bl = lib!(s.fs.volume_label_as_bytes().to_vec());
+                    let id = lib!(s.fs.volume_id());
+                    let d = w.disk.borrow();
+                    if d.store.u8_at(sig_off) == 0x29 && o.outcome {
+                        let mut raw = d.store.get(lab_off, 11);
+                        while raw.last() == Some(&b' ') {
+                            raw.pop();
+                        }
+                        if bl != raw || id != d.store.u32_at(id_off) {
+                            return Err(viol(&prop, "bpb-label-or-id-differs", format!("library label {:?} id {:#x}, raw {:?} / {:#x}", bl, id, raw, d.store.u32_at(id_off)), step_no));
+                        }
+                    }
                 }
                 Err(e) => out.res = Err(map_err(&e)),
             }
